@@ -32,7 +32,7 @@ type drv struct {
 	live  map[int]map[int]bool // the driver's own bookkeeping of what it inserted (input generation only)
 }
 
-func name(id int) string { return fmt.Sprintf("s%03d", id) }
+func name(id int) string { return fmt.Sprintf("s%03d", id) } // ids above 999 are only used with the default hash
 
 func tableHash(htab [][]int, q int) hashring.Hash {
 	shift := uint(64 - (bits.Len(uint(q)) - 1))
@@ -104,6 +104,85 @@ func (d *drv) fresh(n int, ms []int) {
 		d.ins(n, m, 1000+m)
 	}
 	d.ring(n)
+}
+
+// lookupBatch looks up many keys with no mutation in between and records them as one compact event
+func (d *drv) lookupBatch(n int, ks []int) {
+	fs, ms, vers := make([]bool, len(ks)), make([]int, len(ks)), make([]int, len(ks))
+	for i, k := range ks {
+		v, ok := d.ring(n).Lookup(name(k))
+		fs[i], ms[i], vers[i] = ok, v.M, v.Ver
+	}
+	d.log.Emit("lookups", jc{"n": n, "ks": ks, "fs": fs, "ms": ms, "vers": vers})
+}
+
+// big: large member sets with the default hash (thousands of virtual nodes), removals and several
+// insertions between lookups so that the lazy sweep and the re-sort interleave; after every step hundreds
+// of keys are looked up on the history-ful ring and on a ring built fresh from the current member set
+func (d *drv) big(t int, rnd *rand.Rand, tier string) {
+	r, p := 100, 1 // Felix's proxy-neighbour manager uses WithReplicas(100) and the default single probe
+	switch rnd.Intn(5) {
+	case 0:
+		r, p = 64, 3
+	case 1:
+		r, p = 150, 1
+	}
+	n0 := 40 + rnd.Intn(81)
+	d.start(t, r, p, 1, nil, nil)
+	next := 1
+	ver := 0
+	var removed []int
+	for i := 0; i < n0; i++ {
+		ver++
+		d.ins(1, next, ver)
+		next++
+	}
+	nkeys := 200 + rnd.Intn(200)
+	steps := 6 + rnd.Intn(6)
+	if tier == "thorough" {
+		steps += rnd.Intn(8)
+	}
+	for s := 0; s <= steps; s++ {
+		if s > 0 {
+			var todo []func()
+			live := sortedLive(d.live[1])
+			for i, nr := 0, rnd.Intn(4); i < nr && len(live) > 2; i++ {
+				j := rnd.Intn(len(live))
+				m := live[j]
+				live = append(live[:j], live[j+1:]...)
+				removed = append(removed, m)
+				todo = append(todo, func() { d.rem(1, m) })
+			}
+			for i, ni := 0, rnd.Intn(5); i < ni; i++ {
+				var m int
+				if len(removed) > 0 && rnd.Intn(3) == 0 { // a member that was removed earlier (maybe not swept yet)
+					m = removed[rnd.Intn(len(removed))]
+				} else {
+					m = next
+					next++
+				}
+				todo = append(todo, func() { ver++; d.ins(1, m, ver) })
+			}
+			rnd.Shuffle(len(todo), func(i, j int) { todo[i], todo[j] = todo[j], todo[i] })
+			for i, f := range todo {
+				f()
+				if i+1 < len(todo) && rnd.Intn(6) == 0 {
+					d.lookup(1, 5000+rnd.Intn(nkeys))
+				}
+			}
+		}
+		ks := make([]int, nkeys)
+		for i := range ks {
+			ks[i] = 5000 + i
+		}
+		d.lookupBatch(1, ks)
+		fresh := sortedLive(d.live[1])
+		if rnd.Intn(2) == 0 {
+			rnd.Shuffle(len(fresh), func(i, j int) { fresh[i], fresh[j] = fresh[j], fresh[i] })
+		}
+		d.fresh(100+s, fresh)
+		d.lookupBatch(100+s, ks)
+	}
 }
 
 func ints(v any) []int {
@@ -272,6 +351,12 @@ func main() {
 	for i := 0; i < env.N; i++ {
 		t++
 		d.guard(func() { d.random(t, rand.New(rand.NewSource(env.Seed*1000003+int64(i))), env.Tier) })
+	}
+	if nb, _ := strconv.Atoi(os.Getenv("VERIF_RING_BIG")); nb > 0 {
+		for i := 0; i < nb; i++ {
+			t++
+			d.guard(func() { d.big(t, rand.New(rand.NewSource(env.Seed*7919+int64(i))), env.Tier) })
+		}
 	}
 	if err := lg.Close(); err != nil {
 		fmt.Fprintln(os.Stderr, err)
